@@ -349,6 +349,10 @@ fn build_sets(
                     body.bytes(&rec.0);
                     n += 1;
                 }
+                if n == 0 {
+                    // RFC 3954 / RFC 7011: a data set consists of one or more records
+                    continue;
+                }
                 // padding strictly shorter than the shortest possible record
                 let pad = (*pad as usize % 4).min(min - 1);
                 let mut sw = W::default();
